@@ -60,8 +60,8 @@ def main(tier):
     jobs = []
     for name, consts, budget in CONFIGS[tier]:
         cfg = passes.ast_cfg(*consts[:6], invariants=(), outer=consts[6])
-        progs = passes.enumerate_programs(rep, name, cfg, wd)
-        rep.cov.setdefault('enumerated_programs', {})[name] = len(progs)
+        progs = passes.enumerate_programs(rep, name, cfg, wd, budget=budget)
+        rep.cov.setdefault('enumerated_programs', {})[name] = progs.total
         if len(progs) > budget:
             progs = rng.sample(progs, budget)
             rep.cov['exhaustive'] = False
